@@ -38,12 +38,20 @@ CONFIG = {
         "C12.hmtx_roundtrip), read_height_def (CapHeight / XHeight on reading: OS/2 value, else glyphHeight of the glyph 'H' / 'x' maps to if "
         "not .notdef and existing, else 0); queries_total / queries_total_glyf (no query panics for a glyph id in range on any value the reader "
         "can deliver; out-of-range ids: index panic, except GlyphName and the nil-Widths queries) with glyphname_short_names_old_refuted; "
+        "cff_font_queries_agree (the CFF package's own copies: for EVERY cff.Font value cff.Font.Widths / GlyphWidthPDF / WidthsMapPDF / FontBBoxPDF "
+        "are the same functions as the sfnt.Font queries on the font wrapping the same outlines and FontMatrix - FontBBoxPDF tests the accumulator "
+        "instead of a first flag, which rect.Extend does anyway -; WidthsPDF differs by documented unit, cff = 1000 x sfnt entry for entry, panicking "
+        "together), outlines_bbox_def (Outlines.BBox = Font.FontBBox = C12's union of the non-zero Extents), builtin_encoding_def (nil unless exactly "
+        "256 entries; .notdef for glyph id 0 / ids outside the font, the glyph's name otherwise), clone_is_shallow (store model: the clone's two "
+        "structs are new locations with copied fields - assigning any field of the clone leaves the original unchanged -, every slice / map / pointer "
+        "reference is shared - an element written through the clone is seen through the original -, the FontMatrix array is private); "
         "near_sound (the checker's tolerance). Tie: Gen/C12B.v regenerates the op codes, the two switch tables (consumed by the model), "
         "the `first ||` conditions, the operands of every .Mul chain in source order (Tie.v breaks on a reordering), the width formulas and "
         "guards; correspondence through the public API on generated fonts (masks at every position, curves, blank glyphs, single points, "
         "Int16 extremes, fractions, coordinates beyond Int16; simple and CID-keyed CFF with 1..4 Font DICT matrices from 17 matrices incl. "
         "translations, shears, anisotropic scales, rotations by 90/180/270 degrees, the 1e-6 guard; TrueType with / without Widths and "
-        "with short name lists; fonts after Write + Read; malformed values), float answers checked by the extracted checker Qnear "
+        "with short name lists; fonts after Write + Read; malformed values; cff.Font / cff.Outlines methods called directly on generated values "
+        "incl. exactly representable matrices, Encodings of every length, Clone with every field assigned / written through), float answers checked by the extracted checker Qnear "
         "(relative tolerance 1e-9 of the term magnitudes), exact observables compared as strings; oracle = the definitions with math/big."
     ),
     "level_note": (
@@ -56,7 +64,7 @@ CONFIG = {
         "points only (a curve without extremum points leaves the box); coordinates beyond Int16 wrap in Extent."
     ),
     "trusted_base": [
-        "C12B: modelled, not verified: cff/glyph.go (Extent), cff/outlines.go (NumGlyphs, BBox, GlyphBBoxPDF), glyf/glyf.go (NumGlyphs, GlyphBBoxPDF), font.go (FontBBox, FontBBoxPDF, NumGlyphs, Widths, WidthsPDF, WidthsMapPDF, GlyphBBoxes, GlyphWidth, GlyphWidthPDF, GlyphBBox, glyphHeight, GlyphName, IsFixedPitch), write.go (makeHead, makeHmtx, makeOS2, makePost as consumers), read.go (cap height / x-height fallback), seehuhn.de/go/geom matrix.Mul / Apply / Scale and rect.Rect.IsZero / Extend, funit.Rect16",
+        "C12B: modelled, not verified: cff/glyph.go (Extent), cff/outlines.go (NumGlyphs, BBox, GlyphBBoxPDF), glyf/glyf.go (NumGlyphs, GlyphBBoxPDF), font.go (FontBBox, FontBBoxPDF, NumGlyphs, Widths, WidthsPDF, WidthsMapPDF, GlyphBBoxes, GlyphWidth, GlyphWidthPDF, GlyphBBox, glyphHeight, GlyphName, IsFixedPitch), cff/font.go (Clone, FontBBoxPDF, Widths, WidthsPDF, WidthsMapPDF, GlyphWidthPDF), cff/outlines.go BuiltinEncoding, write.go (makeHead, makeHmtx, makeOS2, makePost as consumers), read.go (cap height / x-height fallback), seehuhn.de/go/geom matrix.Mul / Apply / Scale and rect.Rect.IsZero / Extend, funit.Rect16",
         "C12B: float64 arithmetic: the model is exact rational arithmetic; the correspondence accepts a relative error of 1e-9 of the term magnitudes (Qnear, near_sound); math.Floor / Ceil / Abs / Trunc on exactly represented inputs are exact",
         "C12B: funit.Int16(x) of an out-of-range float64 is implementation-defined in Go; go_i16 mirrors gc on amd64 (int32 truncation with the 0x80000000 indefinite value, then the low 16 bits), compared on every run",
         "C12B: verif hook (add-only, //go:build verif): /repo/verif_hooks_c12b.go (glyphHeight)",
